@@ -42,11 +42,14 @@ pub struct Spec {
     pub forced: Vec<(u32, u32)>,
     /// build the reader with from_buf_reader(BufReader::with_capacity(cap, source)) after one fill
     pub via_buf_reader: Option<usize>,
+    /// the document is embedded: this many bytes of an envelope line come first in the stream and
+    /// are consumed (`advance`) before the parser is built on the reader
+    pub embedded: Option<usize>,
 }
 
 impl Spec {
     pub fn oneshot() -> Spec {
-        Spec { grain: Grain::OneShot, chunk: None, fault_at: None, fault_kind: 0, interrupts: 0, line_gated: false, forced: vec![], via_buf_reader: None }
+        Spec { grain: Grain::OneShot, chunk: None, fault_at: None, fault_kind: 0, interrupts: 0, line_gated: false, forced: vec![], via_buf_reader: None, embedded: None }
     }
     pub fn uniform(s: usize, chunk: Option<usize>) -> Spec {
         Spec { grain: Grain::Uniform(s), chunk, ..Spec::oneshot() }
@@ -60,6 +63,10 @@ impl Spec {
     }
     pub fn fault_kind(mut self, k: usize) -> Spec {
         self.fault_kind = k;
+        self
+    }
+    pub fn embedded(mut self, k: usize) -> Spec {
+        self.embedded = Some(k);
         self
     }
     pub fn via_buf_reader(mut self, cap: usize) -> Spec {
@@ -84,6 +91,7 @@ impl Spec {
             "interrupts": self.interrupts,
             "line_gated": self.line_gated,
             "via_buf_reader": self.via_buf_reader,
+            "embedded": self.embedded,
             "choices": self.forced.iter().map(|(c, n)| json!([c, n])).collect::<Vec<_>>(),
         })
     }
@@ -101,6 +109,7 @@ impl Spec {
             interrupts: v["interrupts"].as_u64().unwrap_or(0) as u32,
             line_gated: v["line_gated"].as_bool().unwrap_or(false),
             via_buf_reader: v["via_buf_reader"].as_u64().map(|c| c as usize),
+            embedded: v["embedded"].as_u64().map(|c| c as usize),
             forced: v["choices"].as_array().map(|a| a.iter().map(|c| (c[0].as_u64().unwrap() as u32, c[1].as_u64().unwrap() as u32)).collect()).unwrap_or_default(),
         }
     }
@@ -118,6 +127,7 @@ impl Spec {
             if self.interrupts > 0 { format!(", up to {} Interrupted", self.interrupts) } else { String::new() },
             if self.line_gated { ", line gated" } else { "" }
         ) + &self.via_buf_reader.map_or(String::new(), |c| format!(", via from_buf_reader(BufReader of {c} bytes, filled once)"))
+            + &self.embedded.map_or(String::new(), |k| format!(", embedded behind {k} envelope bytes that were advanced over before the parser was built"))
     }
 }
 
@@ -131,6 +141,16 @@ pub fn run_spec(subject: &dyn Subject, input: &[u8], spec: &Spec) -> Execution {
     };
     let _guard = crate::abortguard::enter(&describe);
     let boundaries = if spec.line_gated { Some(subject.boundaries(input)) } else { None };
+    if let Some(k) = spec.embedded {
+        // envelope: k - 1 bytes '#' and a line feed, then the document
+        let mut data = vec![b'#'; k.saturating_sub(1)];
+        if k > 0 {
+            data.push(b'\n');
+        }
+        data.extend_from_slice(input);
+        let cfg = SourceCfg::new(&data, spec.grain.clone()).fault_at(spec.fault_at.map(|f| f + k)).fault_kind(spec.fault_kind).interrupts(spec.interrupts);
+        return crate::subject::execute_embedded(subject, cfg, spec.chunk, spec.forced.clone(), k);
+    }
     let cfg = SourceCfg::new(input, spec.grain.clone()).fault_at(spec.fault_at).fault_kind(spec.fault_kind).interrupts(spec.interrupts).boundaries(boundaries.as_deref());
     crate::subject::execute_via(subject, cfg, spec.chunk, spec.forced.clone(), spec.via_buf_reader)
 }
@@ -301,6 +321,12 @@ pub fn c01_as(property: &str, subjects: &[Box<dyn Subject>], docs: &[Doc], param
                     let ex = run_spec(subject, input, &spec);
                     c01_compare(property, subject, input, &reference, &spec, &ex, acc);
                 }
+            }
+            // the document embedded behind an envelope that was advanced over before the parser was built
+            for (k, s, chunk) in [(12usize, 16usize, None), (5, 2, Some(2usize)), (1, 1, Some(1))] {
+                let spec = Spec::uniform(s, chunk).embedded(k);
+                let ex = run_spec(subject, input, &spec);
+                c01_compare(property, subject, input, &reference, &spec, &ex, acc);
             }
             // construction through from_buf_reader with left-over buffered bytes
             for (cap, s, chunk) in [(1usize, 1usize, Some(1usize)), (4, 3, Some(2)), (8, 16, None), (64, 2, Some(8)), (0, 3, None), (0, 1, Some(1)), (1, 2, None)] {
@@ -578,7 +604,7 @@ pub struct Corruption {
 }
 
 pub fn c08_specs(tier: Tier, len: usize) -> Vec<Spec> {
-    let mut v = vec![Spec::oneshot(), Spec::uniform(1, Some(1)), Spec::uniform(3, Some(3)), Spec::uniform(1, None), Spec::uniform(7, Some(16))];
+    let mut v = vec![Spec::oneshot(), Spec::uniform(1, Some(1)), Spec::uniform(3, Some(3)), Spec::uniform(1, None), Spec::uniform(7, Some(16)), Spec::oneshot().embedded(12), Spec::uniform(3, Some(3)).embedded(5)];
     if tier == Tier::Thorough {
         v.push(Spec::uniform(2, Some(1)));
         v.push(Spec::uniform(5, Some(2)));
@@ -1024,7 +1050,20 @@ impl GenSource {
         if p < pl {
             self.prefix[p as usize]
         } else if p < pl + body {
-            self.period[((p - pl) % self.period.len() as u64) as usize]
+            let idx = ((p - pl) % self.period.len() as u64) as usize;
+            let b = self.period[idx];
+            if b == b'#' {
+                // a run of eight '#' stands for the number 10000000 + repetition index (always eight
+                // digits): streams whose ids / variables / names never repeat
+                let mut start = idx;
+                while start > 0 && self.period[start - 1] == b'#' {
+                    start -= 1;
+                }
+                let n = 10_000_000 + (p - pl) / self.period.len() as u64 % 89_000_000;
+                let digits = format!("{n:08}");
+                return digits.as_bytes()[(idx - start) % 8];
+            }
+            b
         } else {
             self.suffix[(p - pl - body) as usize]
         }
